@@ -156,3 +156,29 @@ def show(cs):
         ch = chr(c)
         return ch if 0x21 <= c <= 0x7e else "\\x%02x" % c
     return "".join(f(a) if a == b else "%s-%s" % (f(a), f(b)) for a, b in runs)
+
+
+def has_dollar_anchor(pattern, flags=0):
+    """does the pattern use `$` as an anchor (which also matches in front of a final newline)?  A `$` inside a character class
+    or escaped is a literal."""
+    if isinstance(pattern, bytes):
+        pattern = pattern.decode("latin-1")
+    try:
+        tree = sre_parse.parse(pattern, flags)
+    except Exception:
+        return "$" in pattern.replace("\\$", "")
+
+    def walk(items):
+        for op, av in items:
+            if op is sre_c.AT and str(av) == "AT_END":
+                return True
+            if op in (sre_c.MAX_REPEAT, sre_c.MIN_REPEAT) and walk(list(av[2])):
+                return True
+            if op is sre_c.SUBPATTERN and walk(list(av[-1])):
+                return True
+            if op is sre_c.BRANCH and any(walk(list(b)) for b in av[1]):
+                return True
+            if str(op) in ("ASSERT", "ASSERT_NOT") and walk(list(av[1])):
+                return True
+        return False
+    return walk(list(tree))
